@@ -892,6 +892,19 @@ func cmdWire(args []string) {
 		}
 	}
 done:
+	if wc != nil && wc.alive() {
+		if sig, what, rp := runWireCrossSession(wc); sig != "" {
+			res.violate(sig, what, rp)
+			wc.stop()
+			wc, err = startWireChild()
+			if err != nil {
+				res.Inconclusive = append(res.Inconclusive, "child restart: "+err.Error())
+
+				return
+			}
+		}
+		res.count("cross_session_runs")
+	}
 	if *storm > 0 && wc != nil && wc.alive() {
 		// the concurrent phase runs against a fresh child, the race-detector build if there is one
 		gor := wc.goroutines()
@@ -1013,4 +1026,55 @@ func runWireStorm(wc *wireChild, d time.Duration) (sig, what string) {
 	}
 
 	return "", ""
+}
+
+// runWireCrossSession: what one session tells the node about a third node X, followed by a session that announces
+// itself AS X (Wire.tla judges one session at a time; the node's picture of X is shared by all sessions). For each
+// shape of X's connection list in the relayed update (a list, then null / absent / empty with a newer sequence
+// number) a second session connects as X, completes its handshake and pings. The node must survive and answer.
+func runWireCrossSession(wc *wireChild) (sig, what string, replay any) {
+	shapes := []struct{ name, conns string }{{"null", "null"}, {"absent", ""}, {"empty", "{}"}, {"self_only", `{"victim":1}`}}
+	for i, sh := range shapes {
+		x := fmt.Sprintf("gx%d", i)
+		rel, err := dialFramed(wc.ports.TCP)
+		if err != nil {
+			return "", "", nil
+		}
+		me := fmt.Sprintf("xrel%d", i)
+		_ = rel.Send(ruJSON(me, 1, me+"-hs0", map[string]string{"Connections": "{}"}))
+		_ = rel.Send(ruJSON(me, 2, me+"-hs1", nil))
+		_ = rel.Send(ruJSON(me, 0, me+"-x1", map[string]string{"NodeID": fmt.Sprintf("%q", x), "UpdateSequence": "10", "Connections": `{"q":1,"r":2}`}))
+		over := map[string]string{"NodeID": fmt.Sprintf("%q", x), "UpdateSequence": "11", "Connections": sh.conns}
+		b := ruJSON(me, 0, me+"-x2", over)
+		if sh.conns == "" {
+			b = []byte(strings.Replace(string(b), `"Connections":,`, "", 1))
+		}
+		_ = rel.Send(b)
+		time.Sleep(150 * time.Millisecond) // the table rebuild the change asks for
+		dir, err := dialFramed(wc.ports.TCP)
+		if err != nil {
+			rel.Close()
+
+			return "", "", nil
+		}
+		_ = dir.Send(ruJSON(x, 20, x+"-hs0", map[string]string{"Connections": "{}"}))
+		_ = dir.Send(ruJSON(x, 21, x+"-hs1", nil))
+		_ = dir.Send(peer.EncodeData(5, x, "victim", "prb", "ping", nil))
+		time.Sleep(100 * time.Millisecond)
+		ok := wc.probe(10 * time.Second)
+		if !ok && wc.alive() {
+			ok = wc.probe(20 * time.Second)
+		}
+		rel.Close()
+		dir.Close()
+		rp := map[string]any{"phase": "cross-session", "shape": sh.name}
+		if !wc.alive() {
+			return "C07:crash:relayed-" + sh.name + "-connections-then-direct-session", fmt.Sprintf("the node process exited: one session relayed an update of node %s with a connection list and then one with Connections %s; then a session announcing itself as %s completed its handshake", x, sh.name, x), rp
+		}
+		if !ok {
+			return "C07:wedged:relayed-" + sh.name + "-connections-then-direct-session", fmt.Sprintf("the well-behaved peers' pings went unanswered after a relayed update of node %s with Connections %s followed by a direct session of %s", x, sh.name, x), rp
+		}
+	}
+
+	return "", "", nil
 }
